@@ -11,8 +11,8 @@ RERUN_AFTER_DEATH = True
 IMPL_SHARDS = 8
 RULE = ("adversarial streams: Content-Length from 0 to 2^64+ (incl. 2^24, 2^30, 2^40, 2^63, 2^64-1) with few body bytes, chunk "
         "sizes up to 20 hex digits, 10^4 headers, lines of 100 KB..1 MB, NUL/control/non-ASCII bytes, truncations at every class "
-        "of position, TE headers with up to 60 entries mixing NaN/inf/negative q values, random bytes; x handler reads none / "
-        "some / all x respond / drop / panic; a client that leaves without reading the server's bytes inside a streamed body (the "
+        "of position, header lines with empty / blank-only values, TE headers with up to 60 entries mixing NaN/inf/negative q values, random bytes; x handler reads none / "
+        "some / all (also with Read::read_to_end) x respond / drop / panic; a client that leaves without reading the server's bytes inside a streamed body (the "
         "server's read then fails with a reset, not with end-of-stream); HTTP/0.9 requests answered in every way; observed: process death, panic hook (library panics), largest single allocation "
         "request of the process while the case runs; non-trivial = all; distinct = distinct lines")
 ASSUMPTIONS = ["allocation requests above 16 GiB are refused by the harness allocator (as an exhausted machine would), so "
@@ -23,10 +23,13 @@ HUGE = [2 ** 24, 2 ** 30, 2 ** 32, 2 ** 40, 2 ** 62, 2 ** 63, 2 ** 64 - 1, 2 ** 
 
 
 def handler(rng):
-    k = rng.below(5)
-    reads = [[], [(None, 4096)], [(1, 1)], [(10, 3)], [(None, 1)]][k]
+    k = rng.below(6)
+    # (the last one: Read::read_to_end, written 32*0 in the case line: it must not size its buffer by the DECLARED length)
+    reads = [[], [(None, 4096)], [(1, 1)], [(10, 3)], [(None, 1)], "E"][k]
     f = rng.below(4)
     fin = [respond_str(200, b"ok", True), "D", "P", respond_str(200, body_bytes("x", 40000), False)][f]
+    if reads == "E":
+        return "*@32*0/" + fin, {"reads": k, "finish": fin[0]}
     return action_str(reads, fin), {"reads": k, "finish": fin[0]}
 
 
@@ -78,6 +81,11 @@ def build(rng, kind, i):
             s = b"POST /x HTTP/1.1\r\nTransfer-Encoding: chunked\r\n\r\n" + junk
         else:
             s = junk
+    elif kind == "empty-values":
+        # header lines with nothing, or only blanks, behind the colon
+        hs = [rng.choice([b"X-Empty:", b"X-Empty: ", b"X-Empty:\t \t", b"Host:", b"Accept:   ", b"Content-Type:", b"Connection:", b"TE:",
+                          b"Expect:", b"Upgrade:", b":", b": x", b"X-A:\x00"]) for _ in range(rng.choice([1, 2, 5]))]
+        s = ("GET /%s HTTP/1.1\r\nHost: h\r\n" % tag).encode() + b"\r\n".join(hs) + b"\r\n\r\n" + follower
     elif kind == "te-nan":
         n = rng.choice([2, 5, 21, 44, 60])
         s = ("GET /%s HTTP/1.1\r\nTE: %s\r\n\r\n" % (tag, te_list(rng, n))).encode()
@@ -104,7 +112,7 @@ def build(rng, kind, i):
 
 
 KINDS = ["huge-cl", "huge-cl", "huge-chunk", "many-headers", "long-line", "control", "te-nan", "te-nan", "truncated", "random",
-         "head-identity"]
+         "head-identity", "empty-values"]
 RARE = ["many-505", "many-requests"]     # long pipelines: a few per run (the model's wire append is quadratic)
 
 
